@@ -101,7 +101,7 @@ ExportMeasures ==
                templates |-> <<<<"main", Src(prog)>>>> \o [j \in DOMAIN Partials |-> <<Partials[j][1], Src(Partials[j][2])>>],
                data |-> Combos[i][1], cfg |-> Combos[i][2],
                expect |-> [ok |-> (m.err = ""), err |-> m.err, out |-> m.out],
-               measures |-> [outbytes |-> m.outbytes, peak |-> m.peak, prod |-> m.prod, iters |-> m.iters]]) \o "\n")
+               measures |-> [outbytes |-> m.outbytes, peak |-> m.peak, prod |-> m.prod, iters |-> m.iters, nsvals |-> m.nsvals]]) \o "\n")
 
 \* sanity of the measures on the reference: what is returned never exceeds the peak of
 \* the buffer chain, and no loop body runs more often than the product of the lengths
